@@ -751,6 +751,139 @@ fn c16_template(r: &mut impl RngCore, which: u32) -> (Vec<Op>, u64, &'static str
     }
 }
 
+// ------------------------------------------------------------------------------------------ concurrent clients
+/// The `schedules` quantifier (partial): clients and publishers as concurrent tasks on a MULTI-THREADED runtime,
+/// released by a barrier; the clock is frozen and TTLs are long, so the expected per-connection delivery
+/// multiset does not depend on the interleaving: one copy per ask, all copies of an id byte-identical and equal
+/// to one of the frames published under it (whichever publication the schedule made the first), nothing else.
+pub fn concurrent(seed: u64, n: usize, st: &mut Stats) -> Vec<String> {
+    use std::sync::Arc;
+    let rt = tokio::runtime::Builder::new_multi_thread().worker_threads(4).enable_time().build().unwrap();
+    let mut fails = Vec::new();
+    let ids: Vec<[u8; 32]> = ids5()[..3].to_vec();
+    for k in 0..n {
+        let mut r = rng(seed, &format!("c15-concurrent-{k}"));
+        let nclients = 2 + (r.next_u32() % 3) as usize;
+        let mut plans: Vec<Vec<(usize, usize)>> = Vec::new();
+        for _ in 0..nclients {
+            let mut p = Vec::new();
+            for i in 0..ids.len() {
+                if r.next_u32() % 3 != 0 {
+                    p.push((i, 1 + (r.next_u32() % 2) as usize));
+                }
+            }
+            plans.push(p);
+        }
+        // 1..3 candidate publications per id, dealt to two publisher tasks
+        let mut cands: Vec<Vec<Vec<u8>>> = vec![Vec::new(); ids.len()];
+        let mut pubs: Vec<Vec<Vec<u8>>> = vec![Vec::new(), Vec::new()];
+        for (i, id) in ids.iter().enumerate() {
+            for j in 0..(1 + r.next_u32() % 3) {
+                let f = pubframe(id, 1000, 0, &[i as u8, j as u8, (r.next_u32() % 251) as u8]);
+                cands[i].push(f.clone());
+                pubs[(r.next_u32() % 2) as usize].push(f);
+            }
+        }
+        verif_clock::clear();
+        verif_clock::set(Duration::ZERO);
+        let ids2 = ids.clone();
+        let plans2 = plans.clone();
+        let res: Vec<(Vec<Vec<u8>>, Option<Vec<u8>>)> = rt.block_on(async move {
+            let relay = Arc::new(SimpleMessageRelay::new());
+            let barrier = Arc::new(tokio::sync::Barrier::new(plans2.len() + pubs.len()));
+            let mut handles = Vec::new();
+            for plan in plans2.into_iter() {
+                let relay = relay.clone();
+                let b = barrier.clone();
+                let ids = ids2.clone();
+                handles.push(tokio::spawn(async move {
+                    let mut conn = relay.connect();
+                    b.wait().await;
+                    let mut total = 0;
+                    for (i, cnt) in plan {
+                        for _ in 0..cnt {
+                            conn.send(askframe(&ids[i], 1000)).await.unwrap();
+                            total += 1;
+                            tokio::task::yield_now().await;
+                        }
+                    }
+                    let mut got = Vec::new();
+                    for _ in 0..total {
+                        match tokio::time::timeout(Duration::from_secs(60), conn.next()).await {
+                            Ok(Some(m)) => got.push(m),
+                            _ => break,
+                        }
+                    }
+                    let extra = tokio::time::timeout(Duration::from_millis(15), conn.next()).await.ok().flatten();
+                    (got, extra)
+                }));
+            }
+            let mut ph = Vec::new();
+            for (pi, frames) in pubs.into_iter().enumerate() {
+                let relay = relay.clone();
+                let b = barrier.clone();
+                ph.push(tokio::spawn(async move {
+                    let mut conn = relay.connect();
+                    b.wait().await;
+                    for f in frames {
+                        if pi == 0 {
+                            relay.send(f);
+                        } else {
+                            conn.send(f).await.unwrap();
+                        }
+                        tokio::task::yield_now().await;
+                    }
+                }));
+            }
+            for h in ph {
+                let _ = h.await;
+            }
+            let mut out = Vec::new();
+            for h in handles {
+                out.push(h.await.unwrap_or((vec![], None)));
+            }
+            out
+        });
+        st.add("concurrent.runs", 1);
+        let mut seen: Vec<Option<Vec<u8>>> = vec![None; ids.len()];
+        for (c, (got, extra)) in res.iter().enumerate() {
+            st.add("concurrent.deliveries", got.len() as u64);
+            let mut want: Vec<Vec<u8>> = Vec::new();
+            for (i, cnt) in &plans[c] {
+                for _ in 0..*cnt {
+                    want.push(ids[*i].to_vec());
+                }
+            }
+            let mut have: Vec<Vec<u8>> = got.iter().map(|m| m[..32.min(m.len())].to_vec()).collect();
+            want.sort();
+            have.sort();
+            if want != have {
+                fails.push(format!("concurrent run {} client {}: asked {} received {} (ids differ)", k, c, want.len(), have.len()));
+            }
+            if extra.is_some() {
+                fails.push(format!("concurrent run {} client {}: an unasked extra message arrived", k, c));
+            }
+            for m in got {
+                if let Some(i) = ids.iter().position(|x| m.len() >= 32 && x[..] == m[..32]) {
+                    if !cands[i].contains(m) {
+                        fails.push(format!("concurrent run {} client {}: delivered bytes were never published", k, c));
+                    }
+                    match &seen[i] {
+                        None => seen[i] = Some(m.clone()),
+                        Some(p) => {
+                            if p != m {
+                                fails.push(format!("concurrent run {} client {}: two different publications of one id delivered", k, c));
+                            }
+                        }
+                    }
+                }
+            }
+        }
+    }
+    verif_clock::clear();
+    fails
+}
+
 // ------------------------------------------------------------------------------------------ codec cases
 fn codec_cases(seed: u64, thorough: bool, f: &mut impl Write, fails: &mut Vec<String>, base: usize, st: &mut Stats) -> usize {
     let mut r = rng(seed, "c15-codec");
@@ -877,6 +1010,18 @@ pub fn run_profile(kv: &Args, c16: bool) -> i32 {
         ncase += 1;
     }
     cases.flush().unwrap();
+    // concurrent clients on a multi-threaded runtime (implementation-only; C15)
+    let mut cf = std::fs::File::create(format!("{out}/concurrent.txt")).unwrap();
+    if !c16 && kv.get("replay").is_none() {
+        let n = kv.u64("concurrent", if thorough { 400 } else { 40 }) as usize;
+        let cfails = concurrent(seed, n, &mut st);
+        writeln!(cf, "runs {}", n).unwrap();
+        for l in cfails.iter().take(50) {
+            writeln!(cf, "FAIL {}", l).unwrap();
+        }
+    } else {
+        writeln!(cf, "runs 0").unwrap();
+    }
     let mut f = std::fs::File::create(format!("{out}/oracle.txt")).unwrap();
     writeln!(f, "evaluations {}", evals).unwrap();
     for l in &fails {
